@@ -4,7 +4,7 @@ import OntVerif.Util.Hex
 
 Account references: `k<i>` = person i (deterministic key, address i+1), `n<j>` = the account made by the j-th `new` op of the
 line (address 1000+j). Ops: `new:<label>:<scheme>:<pw>`, `imp:<k>:<label>:<alg>:<scheme>:<pw>:<prm>[:<metaIsDefault>]`, `del:<ref>:<pw>`,
-`def:<ref>`, `lab:<ref>:<label>`, `pw:<ref>:<old>:<new>`, `sch:<ref>:<scheme>`, `rl` (reopen). Labels: `-` = empty.
+`def:<ref>`, `lab:<ref>:<label>`, `pw:<ref>:<old>:<new>`, `sch:<ref>:<scheme>`, `rl` (reopen), `ow:<prm>` (another wallet file with scrypt parameter set <prm> is opened, and used, in the same process). Labels: `-` = empty.
 Output: per-op error codes, then ` # ` and the observable state (all getters over the vocabulary of the line, which
 passwords open which account, and the result of a final `SetLabel(first labelled account, "")` probe). -/
 namespace OntVerif.Driver.C38
@@ -64,6 +64,7 @@ def stepOp (st : St) (op : String) : Option (St × String) :=
     | some a, some sch => fin (st.w.changeScheme a sch) st
     | _, _ => none
   | ["rl"] => some ({ st with w := st.w.reload }, "ok")
+  | ["ow", prm] => prm.toNat?.map fun prm => ({ st with w := (st.w.step (.openOther prm)).2 }, "ok")
   | _ => none
 
 /-! vocabulary of a line -/
